@@ -230,6 +230,7 @@ static void valueStep(TypeEnv& E, const Step& st) {
     std::string t = st.opt.count("t") ? st.opt.find("t")->second : "";
     std::string tag = st.opt.count("i") ? st.opt.find("i")->second : "";
     bool wantX = st.opt.count("x") && st.opt.find("x")->second == "1";
+    bool noCanon = st.opt.count("nc") && st.opt.find("nc")->second == "1";   // validate/compare only (see notes/C09.md: crash-prone canonical forms are sampled)
     xstr v = u16(st.payload);
     DatatypeValidator* dv = E.find(t);
     if (!dv) { gOut.line("V\t" + tag + "\tNOTYPE"); }
@@ -238,9 +239,10 @@ static void valueStep(TypeEnv& E, const Step& st) {
         std::string l = "V\t" + tag + "\t" + r1;
         // canonical form, asked both ways (validating / trusting the caller)
         xstr canon;
-        std::string c1 = doCanon(dv, v.c_str(), true, &canon);
+        std::string c1 = noCanon ? std::string("skipped") : doCanon(dv, v.c_str(), true, &canon);
         l += "\tcv=" + c1;
-        if (r1 == "OK") {
+        if (r1 == "OK" && noCanon) l += "\tself=" + doCompare(dv, v.c_str(), v.c_str());
+        else if (r1 == "OK") {
             std::string c0 = doCanon(dv, v.c_str(), false, 0);
             l += "\tcn=" + c0;
             l += "\tself=" + doCompare(dv, v.c_str(), v.c_str());
@@ -262,7 +264,8 @@ static void valueStep(TypeEnv& E, const Step& st) {
             XSValue::Status s1 = XSValue::st_Init, s2 = XSValue::st_Init, s3 = XSValue::st_Init, s4 = XSValue::st_Init;
             bool ok = XSValue::validate(v.c_str(), dt, s1, XSValue::ver_10, MM());
             l += std::string("\t") + (ok ? "1" : "0") + "\tst=" + itos(s1);
-            XMLCh* c = XSValue::getCanonicalRepresentation(v.c_str(), dt, s2, XSValue::ver_10, true, MM());
+            XMLCh* c = noCanon ? 0 : XSValue::getCanonicalRepresentation(v.c_str(), dt, s2, XSValue::ver_10, true, MM());
+            if (noCanon) s2 = XSValue::st_NoCanRep;
             l += "\tcan=" + esc(c) + "\tcst=" + itos(s2);
             if (c) {
                 // idempotence and validity of XSValue's own canonical form
